@@ -377,7 +377,7 @@ pub fn run(engine: &Engine, tier: &str, seed: u64) -> i32 {
         level: "exploration".into(),
         evaluations: outs.len() as u64,
         distinct_nontrivial: trans.len() as u64,
-        rule: "seeded histories of 4-25 ops over 1-5 grammars in one world (edit, revert, touch, keep-mtime edit, back/future-date, build, forced build, delete output, alter version/hash header incl. non-UTF-8 bytes, introduce/remove error, add/remove grammar), four entry-point layouts, half the runs with transparent short/EINTR faults; every fifth API build is a long-lived process that builds, has the grammar changed under it (valid edit / error / revert, written by the node itself) and builds again through one reused Configuration value; edit families include comment, blank-line, trailing-space, CR LF <-> LF, tab and appended-rule edits; foreign files (hand-written code, junk, another grammar's output) are planted at output paths; after EVERY build the reference model demands: processed outputs byte-identical to a forced build, failed grammars leave no output, current outputs untouched (no mutating call on the path, same inode and mtime), Ok iff nothing failed. distinct_nontrivial = distinct (text class, output status before, output status after) transitions observed at checked builds".into(),
+        rule: "seeded histories of 4-25 ops over 1-5 grammars in one world (edit, revert, touch, keep-mtime edit, back/future-date, build, forced build, delete output, alter version/hash header incl. non-UTF-8 bytes, introduce/remove error, add/remove grammar), four entry-point layouts, half the runs with transparent short/EINTR faults; every fifth API build is a long-lived process that builds, has the grammar changed under it (valid edit / error / revert, written by the node itself) and builds again through one reused Configuration value; edit families include comment, blank-line, trailing-space, CR LF <-> LF, tab and appended-rule edits; foreign files (hand-written code, junk, another grammar's output) are planted at output paths; after EVERY build the reference model demands: processed outputs byte-identical to a forced build, failed grammars leave no output, current outputs untouched (no mutating call on the path, same inode and mtime), Ok iff nothing failed. distinct_nontrivial = distinct (text class, kind of the op that preceded the build, output status before, output status after) transitions observed at checked builds".into(),
         samples,
         exhaustive: false,
         assumptions: vec![
